@@ -134,8 +134,10 @@ PROPS = {
         "spec_tied": ["o20:eval "],
         "full": False,
         "not_proved": "that pick_witness yields a network whose single colour has the transitions of the chosen colour "
-                      "(hypothesis AgreeCol) is a library property, exercised by O20",
-        "rule": "O20: every valid colour of every parametrised small network x closed formulae; slice vs pick_witness network",
+                      "(hypothesis AgreeCol) is a library property; O20 decides the premise itself on every sampled instance "
+                      "(transition table of the witness network = table of the chosen colour) besides comparing the results",
+        "rule": "O20: every valid colour of every parametrised small network x closed formulae; slice vs pick_witness network; "
+                "premise AgreeCol decided per instance",
         "assumptions": EVAL_ASSUME,
     },
     "C10": {
